@@ -223,17 +223,26 @@ func (c *ctx) twinsOf(i int, fr lib.Rand, size int, base string) {
 	if i%2 == 1 {
 		k = 256 - 1 - (i/2)%24
 	}
-	c.twinOne(base, gen(k, 0), "kpad", baseRes, i%16 == 0)
+	c.twinOne(base, gen(k, 0), "kpad", baseRes, i%c.twinFullEvery() == 0)
 	switch i % 4 {
 	case 0:
 		c.twinOne(base, base, "grow", baseRes, false)
 	case 1:
-		c.twinOne(base, gen(0, 40), "rpad", baseRes, i%64 == 1)
+		c.twinOne(base, gen(0, 40), "rpad", baseRes, i%(4*c.twinFullEvery()) == 1)
 	case 2:
 		c.twinOne(base, base, "used", baseRes, false)
 	case 3:
 		c.twinOne(base, gen(260, 40), "krpad", baseRes, false)
 	}
+}
+
+// one in twinFullEvery padded twins also becomes an ordinary case for coqc (thorough: the sample is
+// 30 times larger, so a smaller share keeps the shard volume in proportion)
+func (c *ctx) twinFullEvery() int {
+	if c.w.Meta.Tier == "thorough" {
+		return 64
+	}
+	return 16
 }
 
 func replayTwin(c *ctx, in input) {
